@@ -23,7 +23,7 @@ import (
 
 type coalesceSummary struct {
 	ptrParams []int        // indices of the pointer / map / slice parameters
-	outcome   map[uint]int // assignment (bit k set = ptrParams[k] is non-nil) → parameter index returned, -1 = fresh, -2 = unknown, -3 = (nil, error)
+	outcome   map[uint]int // assignment (bit k set = ptrParams[k] is non-nil) → parameter index returned, -1 = fresh, -2 = unknown, -3 = (nil, error), -4 = nil
 	fresh     map[uint]ssa.Value
 }
 
@@ -114,7 +114,39 @@ func coalesceOf(h *ssa.Function) *coalesceSummary {
 					cond, neg = u.X, !neg
 				}
 				bo, ok := cond.(*ssa.BinOp)
-				if !ok || (bo.Op != token.EQL && bo.Op != token.NEQ) {
+				if !ok {
+					return nil
+				}
+				var val bool
+				if lc, isLen := an.Strip(bo.X).(*ssa.Call); isLen && an.IsBuiltinCall(lc, "len") {
+					// `len(fallback) > 0` on a slice (variadic) parameter: "is one provided"
+					p, isP := an.Strip(lc.Call.Args[0]).(*ssa.Parameter)
+					k, isK := bo.Y.(*ssa.Const)
+					if !isP || !isK || k.Value == nil || bit(p) < 0 {
+						return nil
+					}
+					nonEmpty := asg&(1<<uint(bit(p))) != 0
+					n := k.Int64()
+					switch {
+					case (bo.Op == token.GTR && n == 0) || (bo.Op == token.NEQ && n == 0) || (bo.Op == token.GEQ && n == 1):
+						val = nonEmpty
+					case (bo.Op == token.EQL && n == 0) || (bo.Op == token.LSS && n == 1) || (bo.Op == token.LEQ && n == 0):
+						val = !nonEmpty
+					default:
+						return nil
+					}
+					if neg {
+						val = !val
+					}
+					prev = b
+					if val {
+						b = b.Succs[0]
+					} else {
+						b = b.Succs[1]
+					}
+					continue
+				}
+				if bo.Op != token.EQL && bo.Op != token.NEQ {
 					return nil
 				}
 				x, y := bo.X, bo.Y
@@ -126,7 +158,7 @@ func coalesceOf(h *ssa.Function) *coalesceSummary {
 					return nil
 				}
 				nonNil := asg&(1<<uint(bit(p))) != 0
-				val := nonNil == (bo.Op == token.NEQ)
+				val = nonNil == (bo.Op == token.NEQ)
 				if neg {
 					val = !val
 				}
@@ -163,10 +195,20 @@ func coalesceOf(h *ssa.Function) *coalesceSummary {
 						}
 					}
 				} else {
-					switch an.Strip(v).(type) {
+					switch y := an.Strip(v).(type) {
 					case *ssa.Alloc, *ssa.MakeMap, *ssa.MakeSlice:
 						res = -1
 						s.fresh[asg] = v
+					case *ssa.IndexAddr:
+						// &fallback[0]: the caller's own fallback value
+						if p, isP := an.Strip(y.X).(*ssa.Parameter); isP && bit(p) >= 0 && asg&(1<<uint(bit(p))) != 0 {
+							res = -1
+							s.fresh[asg] = v
+						}
+					case *ssa.Const:
+						if y.IsNil() {
+							res = -4 // nothing available: nil
+						}
 					}
 				}
 				b = nil
@@ -188,6 +230,9 @@ func (s *coalesceSummary) nonNil() bool {
 	for asg, res := range s.outcome {
 		if res == -1 || res == -3 {
 			continue // a fresh value, or an error instead of a value
+		}
+		if res == -4 {
+			return false
 		}
 		ok := false
 		for k, i := range s.ptrParams {
@@ -228,9 +273,65 @@ func (s *coalesceSummary) prefers(own, def int) bool {
 				return false
 			}
 		default:
-			if res != -1 && res != -3 {
+			if res != -1 && res != -3 && res != -4 {
 				return false
 			}
+		}
+	}
+	return true
+}
+
+// feasibleAt: the assignments possible at a call — a variadic / slice argument is known to be empty or not.
+func (s *coalesceSummary) feasibleAt(call *ssa.Call) func(asg uint) bool {
+	known := map[int]bool{} // bit -> non-empty
+	for k, i := range s.ptrParams {
+		if call == nil || i >= len(call.Call.Args) {
+			continue
+		}
+		if _, isSlice := call.Call.Args[i].Type().Underlying().(*types.Slice); !isSlice {
+			continue
+		}
+		switch a := call.Call.Args[i].(type) {
+		case *ssa.Const:
+			if a.IsNil() {
+				known[k] = false
+			}
+		case *ssa.Slice:
+			if al, ok := a.X.(*ssa.Alloc); ok {
+				if arr, isArr := al.Type().(*types.Pointer).Elem().Underlying().(*types.Array); isArr {
+					known[k] = arr.Len() > 0
+				}
+			}
+		}
+	}
+	return func(asg uint) bool {
+		for k, v := range known {
+			if (asg&(1<<uint(k)) != 0) != v {
+				return false
+			}
+		}
+		return true
+	}
+}
+
+// nonNilAt is nonNil restricted to what this call can pass.
+func (s *coalesceSummary) nonNilAt(call *ssa.Call) bool {
+	ok := s.feasibleAt(call)
+	for asg, res := range s.outcome {
+		if !ok(asg) || res == -1 || res == -3 {
+			continue
+		}
+		if res == -4 {
+			return false
+		}
+		good := false
+		for k, i := range s.ptrParams {
+			if i == res && asg&(1<<uint(k)) != 0 {
+				good = true
+			}
+		}
+		if !good {
+			return false
 		}
 	}
 	return true
